@@ -138,7 +138,7 @@ theorem connectBlock_spec {base : Image A} {nd : Node A} (cfg : Cfg) {n : Chain}
     · rw [flushIfNeeded_utxo, flushIfNeeded_tip]
       show (flushDirty nd).utxo = utxoOf A n
       rw [flushDirty_utxo]; exact hu
-    · exact e3.2.2 (e2.2.2 (e1.2.2 hm))
+    · exact e3.2.2.1 (e2.2.2.1 (e1.2.2.1 hm))
     · rw [flushIfNeeded_tip]
     · exact Ext.trans e1 (Ext.trans e2 e3)
 
